@@ -305,6 +305,7 @@ def check_consumer(chk, prefix, want=("C03", "C05", "C06", "C01")):
         def abstract(eng_, st_):
             q = st_.get(ref)
             st_.ghost["drain_" + which] = (q["start"], q["len"], st_.ghost["W"])
+            st_.emit("drain_start", which=which)
 
         def inv(eng_, st_):
             q = st_.get(ref)
@@ -417,6 +418,15 @@ def check_consumer(chk, prefix, want=("C03", "C05", "C06", "C01")):
             chk.prove(f"{prefix}.consumer.fail_wakes_all.batch", s.pc, woken_range(s, lo, lo + n), desc=D)
             chk.prove(f"{prefix}.consumer.fail_wakes_all.queues", s.pc, z3.And(woken_range(s, lo + n, m_end), O(s)["len"] <= 0, m_end >= lo + n), desc=D)
             chk.prove(f"{prefix}.consumer.fail_wakes_all.earlier", s.pc, woken_range(s, 0, lo), desc="elements delivered earlier stay woken")
+            kinds = [e.kind for e in it]
+            drains = [i for i, e in enumerate(it) if e.kind == "drain_start"]
+            def replay_lw(inputs):
+                from pyvc.check import native
+                r_ = native("lost_wakeup_replay.py", {})
+                return bool(r_.get("confirmed")), r_
+            chk.prove(f"{prefix}.produce.no_lost_wakeup.flag_before_drain", s.pc, bool(drains) and kinds.index("failed_set") < drains[0] and len(failed) == 1, replay=replay_lw,
+                      describe=lambda m: {"schedule": "producer passes the failed-flag test; the API call fails, the consumer drains, sets the flag and exits; the producer's put happens"},
+                      desc="the failed flag is set BEFORE the queues are drained: a producer that enqueues after the drain has started can see the flag (OG: together with the producer's re-check after its put, no caller waits on a consumer that has exited)")
         else:
             n_ok += 1
     # success path obligations are checked on the `step` states of the outer loop (they do not return); see below
